@@ -108,9 +108,16 @@ type vC04Validator struct {
 	mu                sync.Mutex
 	validates, reject int
 	selects           int
+	// OnValidate, if set, runs (outside the validator's lock) at the start of every Validate call: a monitor can
+	// place another operation at exactly that point of the caller (e.g. between PutValue's pre-check and the value
+	// store's locked read-select-write, which validates before it locks).
+	OnValidate func(key string, value []byte)
 }
 
 func (vv *vC04Validator) Validate(key string, value []byte) error {
+	if h := vv.OnValidate; h != nil {
+		h(key, value)
+	}
 	err := vC04Valid(key, value, time.Now())
 	vv.mu.Lock()
 	vv.validates++
